@@ -641,6 +641,8 @@ MANIFEST = {
             "tables) and of different platforms (oracle-only: python re over each object's own table). "
             "Session names that are names of existing levels (a core level, a session registered before; oracle-only): whatever register_configuration_session does — the tree refuses — "
             "every prompt of the base grammars still maps to its own level(s). "
+            "Edit-locality (oracle-only): an in-place edit of ONE level object (not_contains appended to / entry removed, pattern text changed) leaves every other level's "
+            "pattern and not_contains as they were — fixed histories on every level with an empty not_contains plus the random edit histories. "
             "The same theorem covers IN-PLACE edits of existing level objects (Update t with the edited table): histories on the real drivers of all five platforms classify "
             "prompts, then edit .pattern / .not_contains of the existing PrivilegeLevel objects (host class widened, length bound narrowed, not_contains entry added / removed; "
             "controls: object replaced, level added, undo), call update_privilege_levels(), and classify / get_prompt the prompts that tell the old table from the new one; "
